@@ -471,10 +471,33 @@ def build_match(inp, geoms=None):
             "fb": _number(inp["fb"], b.num) if inp.get("fb") is not None else None}
 
 
+def _compute_affinity():
+    import importlib
+    return getattr(importlib.import_module("soundevent.evaluation.affinity"), "compute_affinity", None)
+
+
 def call_match(args):
-    fn = G._matcher()
+    """`match_geometries` on the two lists; with style entry=compute_affinity (one geometry on each side) the
+    sibling entry point `compute_affinity` is called instead and its value is read as the 1 x 1 answer of the
+    matcher (paired iff the affinity is positive)"""
     how = args["style"].get("call", "kw")
     tb, fb = args["tb"], args["fb"]
+    ca = _compute_affinity() if args["style"].get("entry") == "compute_affinity" else None
+    if ca is not None and len(args["src"]) == 1 and len(args["tgt"]) == 1:
+        g1, g2 = args["src"][0], args["tgt"][0]
+        kw = {}
+        if tb is not None:
+            kw["time_buffer"] = tb
+        if fb is not None:
+            kw["freq_buffer"] = fb
+        if how == "pos" and tb is not None and fb is not None:
+            a = ca(g1, g2, tb, fb)
+        elif how in ("pos", "pos2"):
+            a = ca(g1, g2, **kw)
+        else:
+            a = ca(geometry1=g1, geometry2=g2, **kw)
+        return [(0, 0, float(a))] if a > 0 else [(0, None, 0.0), (None, 0, 0.0)]
+    fn = G._matcher()
     if how == "pos" and tb is not None and fb is not None:
         return list(fn(args["src"], args["tgt"], tb, fb))
     kw = {}
